@@ -21,5 +21,13 @@ meta = {'seed': sid, 'property': prop, 'breaks': breaks, 'needs_to_manifest': ne
         'check_run': {'command': f'git -C /repo apply seeded/{sid}/patch.diff && ./check {prop} --tier {tier}; git -C /repo checkout -- .',
                       'exit': int(rc.group(1)) if rc else None, 'violation_lines': viol[:10], 'first_failed_obligations': detail,
                       'detected': bool(viol)}}
+# a seed that was missed (or left undecided / crashed the checker) when it was written keeps that first outcome on record
+prev = json.load(open(f'{d}/meta.json')) if os.path.exists(f'{d}/meta.json') else None
+if prev:
+    if prev.get('first_run'):
+        meta['first_run'] = prev['first_run']
+    elif not prev['check_run']['detected']:
+        meta['first_run'] = {'exit': prev['check_run']['exit'], 'detected': False,
+                             'note': 'not caught by the checks as they were when the seed was written (exit 0 missed, 2 undecided, 3 checker failure); the check was strengthened afterwards (see DESIGN.md §0.5)'}
 json.dump(meta, open(f'{d}/meta.json', 'w'), indent=1, default=repr)
 print(sid, 'detected' if viol else 'MISSED', 'exit', meta['check_run']['exit'], [x['obligation'] for x in detail])
